@@ -782,6 +782,15 @@ func (in *Interp) prepareCall(fr *Frame, c *ssa.CallCommon) (Value, []Value) {
 		if recv.typ == nil {
 			in.rtPanic("nil-deref", "invalid memory address or nil pointer dereference (nil interface method call "+c.Method.Name()+")")
 		}
+		if nv, ok := recv.v.(*NativeV); ok && nv.kind == "rt" {
+			t := nv.data.(types.Type)
+			name := c.Method.Name()
+			fv = &FuncV{native: func(in *Interp, args []Value) Value { return in.reflectTypeMethod(t, name, args) }}
+			for _, a := range c.Args {
+				args = append(args, in.get(fr, a))
+			}
+			return fv, args
+		}
 		m := in.prog.LookupMethod(recv.typ, c.Method.Pkg(), c.Method.Name())
 		if m == nil {
 			panic(in.unsupported(fmt.Sprintf("method %s not found on %s", c.Method.Name(), recv.typ)))
